@@ -1,0 +1,48 @@
+//go:build verif
+
+package vgirpc
+
+import (
+	"sort"
+
+	"github.com/apache/arrow-go/v18/arrow"
+)
+
+// Verification hooks (build tag "verif") for the HTTP stream continuation
+// properties. Add-only thin wrappers; nothing here is compiled into normal
+// builds.
+
+// VerifC16OpenCursor opens a cursor token as the anonymous caller and returns
+// the call id it names and the stream state it carries.
+func (h *HttpServer) VerifC16OpenCursor(token []byte) (callID string, state interface{}, err error) {
+	data, err := h.openCursorToken(token, Anonymous())
+	if err != nil {
+		return "", nil, err
+	}
+	return data.CallID, data.State, nil
+}
+
+// VerifC16OpenCall opens a call token as the anonymous caller and returns its
+// call id.
+func (h *HttpServer) VerifC16OpenCall(token []byte) (callID string, err error) {
+	var data callTokenData
+	if err := h.openToken(callTokenVersion, token, callTokenAad(Anonymous()), &data); err != nil {
+		return "", err
+	}
+	return data.CallID, nil
+}
+
+// VerifC16Strip runs stripFrameworkTickMetadata.
+func VerifC16Strip(meta arrow.Metadata) arrow.Metadata {
+	return stripFrameworkTickMetadata(meta)
+}
+
+// VerifC16FrameworkKeys lists frameworkTickMetadataKeys, sorted.
+func VerifC16FrameworkKeys() []string {
+	keys := make([]string, 0, len(frameworkTickMetadataKeys))
+	for k := range frameworkTickMetadataKeys {
+		keys = append(keys, k)
+	}
+	sort.Strings(keys)
+	return keys
+}
